@@ -88,8 +88,26 @@ class LeanSide(object):
         return res.returncode == 0, res.stdout
 
     # ---- audit -----------------------------------------------------------
+    def prop_modules(self, prop):
+        """CTM.Props.Cxx plus every CTM.Props.Cxx.<Sub> (files under
+        lean/CTM/Props/Cxx/): all of them hold obligations of the property"""
+        mods = []
+        if (LEAN / 'CTM' / 'Props' / f'{prop}.lean').is_file():
+            mods.append(f'CTM.Props.{prop}')
+        sub = LEAN / 'CTM' / 'Props' / prop
+        if sub.is_dir():
+            for f in sorted(sub.glob('*.lean')):
+                mods.append(f'CTM.Props.{prop}.{f.stem}')
+        return mods
+
     def theorem_names(self, prop):
-        path = LEAN / 'CTM' / 'Props' / f'{prop}.lean'
+        names = []
+        for mod in self.prop_modules(prop):
+            path = LEAN / (mod.replace('.', '/') + '.lean')
+            names += self._theorem_names_of(path)
+        return names
+
+    def _theorem_names_of(self, path):
         if not path.is_file():
             return []
         src = strip_comments(path.read_text())
@@ -131,7 +149,7 @@ class LeanSide(object):
             return [], [], {}
         tmp = LEAN / '.lake' / f'audit_{prop}_{os.getpid()}.lean'
         tmp.parent.mkdir(exist_ok=True)
-        lines = [f'import CTM.Props.{prop}']
+        lines = [f'import {m}' for m in self.prop_modules(prop)]
         for n in names:
             lines.append(f'#print axioms {n}')
         tmp.write_text('\n'.join(lines) + '\n')
